@@ -355,6 +355,18 @@ func (p *bprover) val(v ssa.Value, at *ssa.BasicBlock) lin {
 	case *ssa.BinOp:
 		switch x.Op {
 		case token.ADD:
+			if isUnsigned(x.Type()) {
+				// unsigned addition wraps: it is the integer sum only when neither operand can be huge –
+				// a constant, or a value already bounded by a length (`end := 32 + length` with length an
+				// arbitrary word from the data wraps to a small number for lengths near 2^64)
+				a, b := p.val(x.X, at), p.val(x.Y, at)
+				facts := p.factsAt(x.Block())
+				small := func(l lin) bool { return l.isConst() || p.boundedByLength(l, facts) }
+				if small(a) && small(b) {
+					return a.add(b)
+				}
+				return atomLin("wrapadd(" + p.id(x) + ")")
+			}
 			return p.val(x.X, at).add(p.val(x.Y, at))
 		case token.SUB:
 			if isUnsigned(x.Type()) {
